@@ -94,6 +94,7 @@ type Obligation struct {
 	smt    string
 	replayed bool
 	plan     *replayPlan
+	small    []*Term // optional extra constraints asking for a small (replayable) model
 }
 
 func (fc *FuncCtx) oblige(name, kind string, ids []string, pc, goal *Term, cl *Clause, descr string) *Obligation {
